@@ -157,14 +157,51 @@ structure Segment where
   pre : SegmentPre := {}
   deriving Inhabited
 
-/-- The `DataProvider`: a finite store; lookup by key returns the first item with that key. -/
+/-- The `DataProvider`: a finite association list from LOOKUP keys to items.  `GetFeatureFlag k` /
+`GetSegment k` return the item of the first entry whose lookup key is `k`; nothing forces the item's
+OWN `key` field to equal the lookup key (the interface is implemented by the application). -/
 structure Store where
-  flags : List Flag := []
-  segments : List Segment := []
+  flags : List (String × Flag) := []
+  segments : List (String × Segment) := []
   deriving Inhabited
 
-def Store.findFlag (s : Store) (k : String) : Option Flag := s.flags.find? (·.key == k)
-def Store.findSegment (s : Store) (k : String) : Option Segment := s.segments.find? (·.key == k)
+def Store.findFlag (s : Store) (k : String) : Option Flag := (s.flags.find? (·.1 == k)).map (·.2)
+def Store.findSegment (s : Store) (k : String) : Option Segment :=
+  (s.segments.find? (·.1 == k)).map (·.2)
+
+/-- The store that files every item under its own key. -/
+def Store.ofLists (fs : List Flag) (ss : List Segment) : Store :=
+  { flags := fs.map fun f => (f.key, f), segments := ss.map fun s => (s.key, s) }
+
+/-- Every entry's lookup key equals its item's own key (what a well-behaved provider does; the
+evaluator does not rely on it). -/
+def StoreConsistent (s : Store) : Prop :=
+  (∀ e ∈ s.flags, e.1 = e.2.key) ∧ (∀ e ∈ s.segments, e.1 = e.2.key)
+
+/-- The item returned for lookup key `k` sits in an entry filed under `k`. -/
+theorem Store.mem_of_findFlag {s : Store} {k : String} {pf : Flag} (h : s.findFlag k = some pf) :
+    (k, pf) ∈ s.flags := by
+  unfold Store.findFlag at h
+  obtain ⟨e, he, rfl⟩ := Option.map_eq_some_iff.mp h
+  have h1 : e.1 = k := by simpa using List.find?_some he
+  subst h1
+  exact List.mem_of_find?_eq_some he
+
+theorem Store.mem_of_findSegment {s : Store} {k : String} {seg : Segment}
+    (h : s.findSegment k = some seg) : (k, seg) ∈ s.segments := by
+  unfold Store.findSegment at h
+  obtain ⟨e, he, rfl⟩ := Option.map_eq_some_iff.mp h
+  have h1 : e.1 = k := by simpa using List.find?_some he
+  subst h1
+  exact List.mem_of_find?_eq_some he
+
+theorem Store.findFlag_mem {s : Store} {k : String} {pf : Flag} (h : s.findFlag k = some pf) :
+    pf ∈ s.flags.map (·.2) :=
+  List.mem_map.mpr ⟨_, Store.mem_of_findFlag h, rfl⟩
+
+theorem Store.findSegment_mem {s : Store} {k : String} {seg : Segment}
+    (h : s.findSegment k = some seg) : seg ∈ s.segments.map (·.2) :=
+  List.mem_map.mpr ⟨_, Store.mem_of_findSegment h, rfl⟩
 
 /-- `ldreason.BigSegmentsStatus` (the four values a provider may return). -/
 inductive Status where
